@@ -64,6 +64,7 @@ class Cfg:
         self.null_lits = True
         self.math = False
         self.isin_empty = False  # x.is_in() without values (broadcast literal; see C03)
+        self.count_star_filter = True
         self.__dict__.update(kw)
 
 
@@ -293,24 +294,33 @@ class ExprGen:
         if o == "map":
             f2 = self.pick(["int", "str"])
             k = d(st.integers(1, 3))
-            branches = []
+            branches, used = [], set()
             for _ in range(k):
                 nk = d(st.integers(1, 2))
-                keys = [lit_of(d, f2, cfg, typed_ok=False) for _ in range(nk)]
+                keys = []
+                for _ in range(nk):
+                    kl = lit_of(d, f2, cfg, typed_ok=False)
+                    if repr(kl[1]) in used:
+                        continue  # keys are unique (documented as the caller's responsibility)
+                    used.add(repr(kl[1]))
+                    keys.append(kl)
+                if not keys:
+                    continue
                 branches.append([keys, g(fam, 0) if self.chance(3) else lit_of(d, fam, cfg, typed_ok=False)])
+            if not branches:
+                return g(fam)
             dflt = g(fam, 0) if self.chance(8) else ["lit", None]
             return ["map", g(f2), branches, dflt]
         raise AssertionError(o)
 
     def _cond(self, g):
         c = g("bool")
-        if not any(nd[0] == "col" for nd in walk_expr(c)) and self.chance(9):
+        if not any(nd[0] == "col" for nd in walk_expr(c)):
             # conditions refer to a column (an all-literal chain hits the Polars broadcast bug)
-            lf = self.leaf("bool")
-            if lf[0] == "col":
-                return lf
+            if self.s.by_fam["bool"] and self.chance(5):
+                return ["col", self.pick(self.s.by_fam["bool"])[0]]
             for f in self.s.fams_available():
-                return ["fn", "is_not_null", [self.leaf(f)], {}]
+                return ["fn", "is_not_null", [["col", self.pick(self.s.by_fam[f])[0]]], {}]
         return c
 
     def _branch_val(self, fam, g):
@@ -348,6 +358,8 @@ class ExprGen:
         ctx = dict(ctx_extra or {})
         if kind == "count_star":
             e = ["fn", "count_star", [], ctx]
+            if self.cfg.filter_kw and self.cfg.count_star_filter and self.chance(3):
+                ctx["filter"] = [self._filter_cond(depth)]
             return e
         if kind == "sumb":
             arg, op = inner("bool"), "sum"
@@ -363,9 +375,16 @@ class ExprGen:
         e = ["fn", op, [arg], ctx]
         if self.cfg.filter_kw and self.chance(3):
             nf = d(st.integers(1, 2))
-            fs = [ExprGen(self.draw, self.s, self.cfg).gen("bool", max(depth - 1, 0)) for _ in range(nf)]
-            ctx["filter"] = fs
+            ctx["filter"] = [self._filter_cond(depth) for _ in range(nf)]
         return e
+
+    def _filter_cond(self, depth):
+        """A filter= condition; it refers to a column (a literal-only condition is a scalar on Polars)."""
+        sub = ExprGen(self.draw, self.s, self.cfg)
+        c = sub.gen("bool", max(depth - 1, 0))
+        if not any(nd[0] == "col" for nd in walk_expr(c)):
+            return sub._cond(lambda f, dd=0: sub.gen(f, dd))
+        return c
 
     def _agg_fallback(self, fam, ctx):
         """An aggregate of the wanted family when the scope has no column to feed it."""
